@@ -86,7 +86,7 @@ def h_reconcile(ctx, case):
     sizes = case['sizes']
     ng = case['genes']
     levels, names = level_names(sizes)
-    parents = symbolic_parents(ctx, sizes, onto=True)
+    parents = symbolic_parents(ctx, sizes, onto=case.get('onto', True))
     data = tree_data(levels, names, parents)
     orc = Oracle(levels, names, parents)
     tree = TaxonomyTree(data=data)
@@ -171,7 +171,7 @@ def h_reconcile(ctx, case):
             k for k in table if k not in want and table[k]
             and not (set(table[k]) & set(query))])
         ctx.exception(raised, 'error although every parent that needs '
-                      'markers can be served: ' + str(raised)[:80])
+                      'markers can be served: ' + str(raised)[-90:])
         return 'unexpected error'
     ctx.reach('cache written')
     try:
@@ -228,6 +228,10 @@ def h_reconcile(ctx, case):
 
 
 def classify(f, case):
+    if "arker cache is missing" in f['label'] and \
+            case.get('onto') is False:
+        return ('F7:childless-inner-node:reconcile_taxonomy_and_markers-'
+                'demands-a-marker-group')
     n = f.get('notes', {}).get('unneeded_entry_without_overlap')
     if n:
         return ('F12:marker-list-of-a-parent-that-needs-no-markers-has-no-'
@@ -248,7 +252,8 @@ HARNESSES = [
                     'perm_query': True, 'dups': True},
                    {'sizes': [2], 'genes': 2, 'foreign': True},
                    {'sizes': [2, 3], 'genes': 2, 'max_min': 2},
-                   {'sizes': [1, 2], 'genes': 2, 'foreign': True}],
+                   {'sizes': [1, 2], 'genes': 2, 'foreign': True},
+                   {'sizes': [3, 2], 'genes': 1, 'onto': False}],
             thorough_cases=[
                 {'sizes': [2], 'genes': 3, 'perm_ref': True,
                  'perm_query': True, 'foreign': True, 'dups': True},
@@ -258,7 +263,9 @@ HARNESSES = [
                 {'sizes': [2, 2, 3], 'genes': 2, 'max_min': 2},
                 {'sizes': [1, 2, 3], 'genes': 2, 'max_min': 2},
                 {'sizes': [2, 3], 'genes': 2, 'foreign': True,
-                 'perm_query': True}],
+                 'perm_query': True},
+                {'sizes': [3, 2], 'genes': 2, 'onto': False},
+                {'sizes': [2, 2, 2], 'genes': 2, 'onto': False}],
             funcs=FUNCS, classify=classify,
             stubs=['h5py -> in-memory model'],
             bounds='every onto child->parent map of the listed level '
